@@ -633,6 +633,8 @@ type FnCtx struct {
 	afterCall      map[string]*State          // state in which the first call of a callee (by short name) returned
 	afterCallBlock map[string]*ssa.BasicBlock
 	afterCallReach map[string]string // path condition under which that call is reached
+	debugDefBlock  map[string]*ssa.BasicBlock // block of the instruction a source-level local name is currently bound to
+	usedLocals     map[string]bool            // source-level local names resolved while a step clause is translated
 	iterPre        map[*ssa.BasicBlock]*State // state at the start of the iteration (after the loop-head havoc)
 	hdrVars        map[*ssa.BasicBlock]map[string]Val
 	noPanic        bool
